@@ -201,6 +201,10 @@ def parse_color_to_rgb(
             return hex_to_rgb(s)
 
         # HSL/HSLA functional notation
+        if s_lower.startswith("hsl(") and s_lower.count(",") == 3:
+            # hsl() with a fourth component carries an alpha, exactly like hsla()
+            s = "hsla(" + s[4:]
+            s_lower = s.lower()
         if s_lower.startswith("hsl(") or s_lower.startswith("hsla("):
             if s_lower.startswith("hsla("):
                 bg_rgb = None
